@@ -72,13 +72,15 @@ out.append("\n------------------------------------------------------------------
            "come from reads of an outer call's argument (C17).  All 24 are now reported by the quick tier.\n\n"
            "Mechanical mutants (`tools/mutants.py`): 239 one-token mutants of the Rust sources (comparison flips, deleted\n"
            "statements, off-by-one constants) were each run through the existing tests and then through the quick tier in a\n"
-           "scratch copy.  Survivors were triaged by hand (`python3 tools/mutants.py report` prints them): all but one are equivalent mutants (for\n"
+           "scratch copy.  Survivors were triaged by hand (`python3 tools/mutants.py report` prints them): all but two are equivalent mutants (for\n"
            "instance `trim()` vs `trim_start()` before `is_empty()`, `is_ascii_hexdigit` where a later `parse::<u64>` rejects\n"
            "the same strings, iteration order over a loop stack that holds one entry per variable - an invariant proved in\n"
            "`C16.store_ok_reachable`) or lie outside the twenty properties (terminal detection, the static-warning line number\n"
-           "the CLI prints, LSP capability flags).  The one real miss was `step_value >= 0.0` -> `> 0.0` in NEXT: no generator\n"
-           "produced STEP 0; a zero-step family (`STEP 0`, `STEP -0`, `STEP 0 * Z`) was added to the reference-interpreter\n"
-           "generator and C03 now reports it with a concrete program.\n\n"
+           "the CLI prints, LSP capability flags).  Two were real misses: `step_value >= 0.0` -> `> 0.0` in NEXT (no generator\n"
+           "produced STEP 0; a zero-step family - `STEP 0`, `STEP -0`, `STEP 0 * Z` - was added to the reference-interpreter\n"
+           "generator), and the deleted `discard_remaining_tokens()` at a colon in the false-branch scan of IF (no generator put\n"
+           "further statements after an IF on the same line, so a later `IF .. ELSE` whose ELSE the scan would wrongly pick up\n"
+           "never occurred; the generator now does).  C03 reports both with a concrete program.\n\n"
            "The lesson kept from four rounds: misses were always generator reach, so every miss was answered with a\n"
            "*family* of inputs (a dimension of the input space), and the evidence file prints the distribution of families.\n\n"
            "| seed | needs, in order to manifest | result |\n|---|---|---|\n")
